@@ -29,6 +29,7 @@
 #include <time.h>
 #include <unistd.h>
 #include <sys/ptrace.h>
+#include <sys/resource.h>
 #include <sys/syscall.h>
 #include <sys/types.h>
 #include <sys/uio.h>
@@ -221,7 +222,11 @@ int main(int argc, char **argv) {
   if (ai >= argc - 1) { fprintf(stderr, "usage: sup [-o trace] [-p plan] -- cmd ...\n"); return 2; }
   ai++;
   child = fork();
-  if (child == 0) { ptrace(PTRACE_TRACEME, 0, 0, 0); raise(SIGSTOP); execvp(argv[ai], argv + ai); _exit(127); }
+  if (child == 0) {
+    const char *nf = getenv("SUP_CHILD_NOFILE");       /* descriptor limit for the traced program only (sup keeps its own) */
+    if (nf && atoi(nf) > 0) { struct rlimit rl = { (rlim_t)atoi(nf), (rlim_t)atoi(nf) }; setrlimit(RLIMIT_NOFILE, &rl); }
+    ptrace(PTRACE_TRACEME, 0, 0, 0); raise(SIGSTOP); execvp(argv[ai], argv + ai); _exit(127);
+  }
   int st; waitpid(child, &st, 0);
   ptrace(PTRACE_SETOPTIONS, child, 0, PTRACE_O_TRACESYSGOOD | PTRACE_O_TRACECLONE | PTRACE_O_TRACEFORK | PTRACE_O_TRACEVFORK | PTRACE_O_TRACEEXEC | PTRACE_O_EXITKILL);
   get(child)->prio = 1000; ptrace(PTRACE_SYSCALL, child, 0, 0);
@@ -312,11 +317,13 @@ int main(int argc, char **argv) {
           if ((sd->nr == SYS_dup || sd->nr == SYS_dup2 || sd->nr == SYS_dup3) && ret >= 0) fd_add(ret);
           if (sd->nr == SYS_fcntl && (t->a[1] == F_DUPFD || t->a[1] == F_DUPFD_CLOEXEC) && ret >= 0) fd_add(ret);
           if (sd->nr == SYS_close && ret == 0) fd_del(t->a[0]);
-          int skip = (sd->nr == SYS_ioctl && (unsigned long)t->a[1] != FICLONE_NR && (unsigned long)t->a[1] != FIEMAP_NR)
+          unsigned long ioreq = (unsigned long)t->a[1];
+          int other_clone = sd->nr == SYS_ioctl && (ioreq == 0x4020940dUL /* FICLONERANGE */ || ioreq == 0xc0189436UL /* FIDEDUPERANGE */);
+          int skip = (sd->nr == SYS_ioctl && ioreq != FICLONE_NR && ioreq != FIEMAP_NR && !other_clone)
                   || ((sd->nr == SYS_write || sd->nr == SYS_read || sd->nr == SYS_close || sd->nr == SYS_fstat || sd->nr == SYS_fcntl) && (int)t->a[0] <= 2 && sd->nr != SYS_close);
           if (!skip) {
             fprintf(out, "{\"n\":%ld,\"x\":%ld,\"tid\":%d,\"sys\":\"%s\",\"a\":[%ld,%ld,%ld,%ld,%ld,%ld],\"ret\":%ld", t->seq_entry, ++seq, tid,
-                    (sd->nr == SYS_ioctl ? ((unsigned long)t->a[1] == FICLONE_NR ? "ficlone" : "fiemap") : sd->name),
+                    (sd->nr == SYS_ioctl ? (ioreq == FICLONE_NR ? "ficlone" : other_clone ? "ficlonerange" : "fiemap") : sd->name),
                     t->a[0], t->a[1], t->a[2], t->a[3], t->a[4], t->a[5], ret);
             if (t->p0[0]) jstr(out, "path", t->p0);
             if (t->p1[0]) jstr(out, "path2", t->p1);
